@@ -3,6 +3,7 @@
 package otter
 
 import (
+	"math"
 	"fmt"
 	"strings"
 	"unsafe"
@@ -169,8 +170,12 @@ func VerifAudit[K comparable, V any](c *Cache[K, V]) string {
 		}
 		return true
 	})
-	return fmt.Sprintf("table=%d linked=%d dup=%d deadlinked=%d unlinked=%d notalive=%d ws=%d sumlinked=%d sumtable=%d max=%d ds=%d wb=%d",
-		table, len(linked), dup, deadLinked, unlinked, notAlive, p.weightedSize, sumLinked, sumTable, p.maximum, cc.drainStatus.Load(), cc.writeBuffer.Size())
+	rb := 0
+	if cc.readBuffer != nil {
+		rb = cc.readBuffer.Len()
+	}
+	return fmt.Sprintf("table=%d linked=%d dup=%d deadlinked=%d unlinked=%d notalive=%d ws=%d sumlinked=%d sumtable=%d max=%d ds=%d wb=%d rb=%d",
+		table, len(linked), dup, deadLinked, unlinked, notAlive, p.weightedSize, sumLinked, sumTable, p.maximum, cc.drainStatus.Load(), cc.writeBuffer.Size(), rb)
 }
 
 // VerifInflight returns the number of load calls still registered.
@@ -180,4 +185,39 @@ func VerifInflight[K comparable, V any](c *Cache[K, V]) int {
 		return 0
 	}
 	return g.calls.Size()
+}
+
+// verifEqualKeys records key a `n` times in a fresh sketch of capacity `capacity` and returns the estimate of key b, which is
+// equal to a by == but may be represented differently.
+func verifEqualKeys[K comparable](a, b K, n int, capacity uint64) uint64 {
+	s := newSketch[K]()
+	s.ensureCapacity(capacity)
+	for i := 0; i < n; i++ {
+		s.increment(a)
+	}
+	return s.frequency(b)
+}
+
+// VerifSketchEqualKeys: estimates through an equal key of another representation, one line per key type.
+func VerifSketchEqualKeys(n int, capacity uint64) []string {
+	negZero := math.Copysign(0, -1)
+	negZero32 := float32(negZero)
+	var b strings.Builder
+	b.WriteString("ab")
+	dyn := b.String()
+	type st struct {
+		F float64
+		S string
+	}
+	return []string{
+		fmt.Sprintf("eqkeys type=float64 n=%d f=%d", n, verifEqualKeys[float64](0, negZero, n, capacity)),
+		fmt.Sprintf("eqkeys type=float64r n=%d f=%d", n, verifEqualKeys[float64](negZero, 0, n, capacity)),
+		fmt.Sprintf("eqkeys type=float32 n=%d f=%d", n, verifEqualKeys[float32](0, negZero32, n, capacity)),
+		fmt.Sprintf("eqkeys type=string n=%d f=%d", n, verifEqualKeys[string]("ab", dyn, n, capacity)),
+		fmt.Sprintf("eqkeys type=array n=%d f=%d", n, verifEqualKeys[[2]float64]([2]float64{0, 1}, [2]float64{negZero, 1}, n, capacity)),
+		fmt.Sprintf("eqkeys type=struct n=%d f=%d", n, verifEqualKeys[st](st{0, "ab"}, st{negZero, dyn}, n, capacity)),
+		fmt.Sprintf("eqkeys type=any n=%d f=%d", n, verifEqualKeys[any](0.0, negZero, n, capacity)),
+		fmt.Sprintf("eqkeys type=complex n=%d f=%d", n, verifEqualKeys[complex128](complex(0, 0), complex(negZero, negZero), n, capacity)),
+		fmt.Sprintf("eqkeys type=int n=%d f=%d", n, verifEqualKeys[int](7, 7, n, capacity)),
+	}
 }
